@@ -7,26 +7,30 @@ ASSUMPTIONS = ['as C09; connection requests arrive in the order given (the only 
 
 def arrivals(r):
     """4..12 well-formed requests in random order; every seat is eventually offered an acceptable one."""
-    teams = (r.choice(['NS team', 'a', 'A b  c']), r.choice(['E/W', 'b', 'x.y']))
+    teams = (r.choice(['NS team', 'a', 'A b  c']), r.choice(['E/W', 'b', 'x.Y']))
     good = [dict(seat=s, team=teams[s % 2], version=18) for s in range(4)]
     bad = []
-    for _ in range(r.randint(0, 8)):
+    for _ in range(r.randint(0, 8) if r.random() < 0.5 else r.randint(4, 8)):
         k = r.random()
         s = r.randint(0, 3)
-        if k < 0.35:
+        if k < 0.3:
             bad.append(dict(seat=s, team=teams[s % 2], version=r.choice([17, 19, 1, 180])))       # wrong protocol version
-        elif k < 0.7:
+        elif k < 0.55:
             bad.append(dict(seat=s, team=teams[s % 2], version=18))                                 # duplicate seat (or an early good one)
         else:
-            bad.append(dict(seat=s, team=r.choice(['other', teams[(s + 1) % 2], teams[s % 2] + ' ']), version=18))   # partner mismatch (if partner seated)
+            bad.append(dict(seat=s, team=r.choice(['other', teams[(s + 1) % 2], teams[s % 2] + ' ', ' ' + teams[s % 2], teams[s % 2].swapcase(), teams[s % 2].swapcase(), teams[s % 2].upper() + '!', teams[s % 2][:-1]]), version=18))   # partner mismatch (if partner seated)
     arr = good + bad
     r.shuffle(arr)
     # a mismatching team that arrives before its partner would be seated and then block the real partner: keep the property's premise
-    # (each seat eventually offered an acceptable request) by putting one acceptable request per seat first in 60% of the cases
-    if r.random() < 0.6:
-        arr = [a for a in arr if a in good] + [a for a in arr if a not in good]
-    else:
-        arr = [a for a in arr if a['team'] == teams[a['seat'] % 2]]     # no foreign team names: wrong versions and duplicates only
+    # (each seat eventually offered an acceptable request) by moving every foreign-named request behind the acceptable request of its
+    # partner seat - it is then looked at while the partner is seated (unless the table is already full) and must be turned away
+    foreign = [a for a in arr if a['team'] != teams[a['seat'] % 2]]
+    for a in foreign:
+        arr.remove(a)
+        j = next(i for i, g in enumerate(arr) if g in good and g['seat'] == (a['seat'] + 2) % 4)
+        arr.insert(r.randint(j + 1, len(arr)), a)
+    if r.random() < 0.25:
+        arr = [a for a in arr if a in good] + [a for a in arr if a not in good]      # the four acceptable ones first: nobody else is looked at
     for a in arr:
         a.update(policy_seed=r.randint(0, 10 ** 6), style=r.choice(['short', 'pass']), variant={})
     return arr
